@@ -191,10 +191,11 @@ def _parse_directive_options(
         line = None if line is None else line + 1
         # keep every line terminated, so that no (blank) line is lost when re-splitting
         content = "".join(ln + "\n" for ln in split_lines(content)[1:])
-        match = re.search(r"^-{3,}", content, re.MULTILINE)
+        # the closing delimiter is a whole line (every line is terminated here)
+        match = re.search(r"^-{3,}[ \t\r]*\n", content, re.MULTILINE)
         if match:
             options_block = content[: match.start()]
-            content = content[match.end() + 1 :]  # TODO advance line number
+            content = content[match.end() :]  # TODO advance line number
         else:
             options_block = content
             content = ""
